@@ -246,7 +246,7 @@ class OptimizationHistory:
             return self.Solution(f_opt, x_opt, False, c_opt, c_opt_grad)
 
         # Case 2: the solution is feasible; we return it.
-        f_opt, x_opt = inf, array([])
+        f_opt, x_opt = inf, None
         c_opt = {}
         c_opt_grad = {}
         obj_name = self.objective_name
@@ -266,6 +266,18 @@ class OptimizationHistory:
                     c_opt[c_name] = output_values.get(c_name)
                     c_key = Database.get_gradient_name(c_name)
                     c_opt_grad[constraint.name] = output_values.get(c_key)
+
+        if x_opt is None:
+            # No feasible point has a comparable objective value (missing or NaN):
+            # return the first feasible point rather than a point never recorded.
+            x_opt = feas_x[0]
+            output_values = feas_f[0]
+            f_opt = output_values.get(obj_name)
+            for constraint in constraints:
+                c_name = constraint.name
+                c_opt[c_name] = output_values.get(c_name)
+                c_key = Database.get_gradient_name(c_name)
+                c_opt_grad[c_name] = output_values.get(c_key)
 
         if isinstance(f_opt, ndarray) and len(f_opt) == 1:
             f_opt = f_opt[0]
